@@ -70,8 +70,17 @@ def root_span(span):
 def run_programs(programs, tag):
     """programs: list of dicts with 'name', 'body' (the type definition(s)); adds 'rc', 'errors'
     [(code, root file, line, message)]."""
+    import hashlib
+    rid = hashlib.sha256(factsmod.repo_root().encode()).hexdigest()[:8]
+    # the artefacts (library rmeta, derive .so) live in the fixture target directory of this tree: hold its lock so that
+    # a concurrently running check cannot rebuild them under the compiler's feet; the scratch directory is per process
+    with factsmod.locked('fx-%s' % rid):
+        return _run_programs_locked(programs, tag, rid)
+
+
+def _run_programs_locked(programs, tag, rid):
     art = locate_artefacts()
-    wd = os.path.join(factsmod.WORK, 'witness-' + tag)
+    wd = os.path.join(factsmod.WORK, 'witness-%s-%s-%d' % (tag, rid, os.getpid()))
     if os.path.isdir(wd):
         shutil.rmtree(wd)
     os.makedirs(wd)
@@ -99,5 +108,5 @@ def run_programs(programs, tag):
         return p
     with ThreadPoolExecutor(max_workers=16) as ex:
         list(ex.map(one, programs))
-    shutil.rmtree(outd, ignore_errors=True)
+    shutil.rmtree(wd, ignore_errors=True)
     return programs
